@@ -609,7 +609,7 @@ def engine(prop, tier, seed, work):
             sub("all_solo", model_scenarios, "asyncio_scn_t", "solo", work, "all_solo")
             sub("all_two", model_scenarios, "asyncio_scn_two", "two", work, "all_two")
             sub("all_handoff", model_scenarios, "asyncio_scn_handoff", "handoff", work, "all_handoff")
-        nsim = 300 if quick else 3000
+        nsim = 300 if quick else 2000
         for topo in TOPOS:
             rs["sim_" + topo] = check.Result()
             parts["sim_" + topo] = ex.submit(sim_scenarios, topo, nsim, seed, work, rs["sim_" + topo])
@@ -617,7 +617,7 @@ def engine(prop, tier, seed, work):
         for r in rs.values():
             res.merge(r)
 
-        nrnd = 120 if quick else 1500
+        nrnd = 120 if quick else 1000
         by_topo = collections.OrderedDict((t, []) for t in TOPOS)
         for s in CURATED:
             by_topo[s["topo"]].append(s)
